@@ -167,6 +167,10 @@ def run(facts, rep, ctx):
                         # every consistent path must be an error path that never touched the data
                         if any(o["definite"] for o in oks):
                             bad.append(("accepts-invalid", S, a, m, ""))
+                        elif oks and cat.startswith("ann_read") and any(state_dependent_only(E, b, o) for o in oks):
+                            # the only thing between an out-of-range address and Ok is whether the archive's own
+                            # annotation map has an entry there: the property quantifies over archives, so it has
+                            bad.append(("accepts-invalid", S, a, m, "(for an archive whose annotation map has an entry at that address: the lookup is answered before the range check)"))
                         elif oks:
                             undecided.add("%s: a success path could not be excluded at size=%s address=%s (a condition on it is not evaluable)" % (short, S, hexs(a)))
                         for o in errs:
@@ -388,6 +392,26 @@ def run(facts, rep, ctx):
     adt_rule(facts, rep)
 
 
+def state_dependent_only(E, body, o):
+    """All conditions of outcome o's path that could not be evaluated are look-ups in one of the archive's own maps
+    (`self.text.get(&address)` ...): whether the path is taken depends only on the archive's content."""
+    unk = 0
+    for p in o["paths"][:1]:
+        for (bb, term, vals, neg, dty) in p.conds:
+            try:
+                E.ev(term, o.get("env") or {}, body, 0)
+            except Unknown:
+                t = term[1] if term[0] == "discr" else term
+                t = strip_refs(t)
+                if t[0] == "call" and t[1].rsplit("::", 1)[-1] in ("get", "contains_key", "get_mut", "get_key_value") and t[2] and root_field(("ref", strip_refs(t[2][0]), True), False)[0]:
+                    unk += 1
+                    continue
+                return False
+            except Panic:
+                return False
+    return unk > 0
+
+
 def final_outcomes(E, facts, body, args, depth=0):
     """Outcomes of `body` at a class representative, following tail delegation
     (`None => self.delete_x(address)`) into local callees."""
@@ -396,7 +420,7 @@ def final_outcomes(E, facts, body, args, depth=0):
         p = o["path"]
         err = is_err_term(p.ret) if p.ret is not None else None
         if o["panic"]:
-            res.append({"err": None, "definite": o["definite"], "panic": o["panic"], "paths": [p]})
+            res.append({"err": None, "definite": o["definite"], "panic": o["panic"], "paths": [p], "env": o["env"]})
             continue
         if err is None and p.ret is not None and p.ret[0] == "call" and depth < 4:
             cb = facts.body(p.ret[1])
@@ -404,11 +428,11 @@ def final_outcomes(E, facts, body, args, depth=0):
                 try:
                     cargs = [E.ev(a, o["env"], body) for a in p.ret[2]]
                 except Panic as pe:
-                    res.append({"err": None, "definite": o["definite"], "panic": pe.what, "paths": [p]})
+                    res.append({"err": None, "definite": o["definite"], "panic": pe.what, "paths": [p], "env": o["env"]})
                     continue
                 for o2 in final_outcomes(E, facts, cb, cargs, depth + 1):
                     res.append({"err": o2["err"], "definite": o["definite"] and o2["definite"], "panic": o2["panic"],
-                                "paths": [p] + o2["paths"]})
+                                "paths": [p] + o2["paths"], "env": o["env"]})
                 continue
         definite = o["definite"]
         if err is None and p.ret is not None:
@@ -422,11 +446,11 @@ def final_outcomes(E, facts, body, args, depth=0):
                 else:
                     definite = False
             except Panic as pe:
-                res.append({"err": None, "definite": definite, "panic": pe.what, "paths": [p]})
+                res.append({"err": None, "definite": definite, "panic": pe.what, "paths": [p], "env": o["env"]})
                 continue
             except Unknown:
                 definite = False
-        res.append({"err": err, "definite": definite, "panic": None, "paths": [p]})
+        res.append({"err": err, "definite": definite, "panic": None, "paths": [p], "env": o["env"]})
     return res
 
 
@@ -517,8 +541,28 @@ def root_field(t, is_place=True):
     return False, None, ()
 
 
+def zero_length_runs(facts, rep, R7, E):
+    """A byte run of length zero makes no access: `read_bytes(0)` / `write_bytes(&[])` succeed wherever the cursor is,
+    the end of the data included (a per-byte loop does; one positional call for the whole run must too)."""
+    for cls, meth, arg in (("BinArchiveReader", "read_bytes", 0), ("BinArchiveWriter", "write_bytes", Ref({"len": 0}))):
+        b = facts.body("mila::bin_streams::%s::<'a>::%s" % (cls, meth))
+        if b is None:
+            continue
+        for pos in (8, 9):
+            try:
+                outs = final_outcomes(E, facts, b, [Ref({"position": pos, "archive": Ref({"data": {"len": 8}})}), arg])
+            except (Unknown, Panic, RecursionError):
+                outs = None
+            if outs and any(o["err"] is False and o["definite"] and not o["panic"] for o in outs):
+                rep.ok(R7, {"fn": b.name, "zero_length_run_at": pos, "size": 8})
+            elif outs and all((o["err"] is True or o["panic"]) and o["definite"] for o in outs):
+                rep.violation(R7, b.name, "empty-run-rejected", "%s::%s of a zero-length run with the cursor at %d of 8 bytes is rejected on every path: the run touches no byte, and the byte-wise form succeeds" % (cls, meth, pos), "%s:%s" % (b.file, b.line))
+                break
+
+
 def stream_rules(facts, rep, E):
     R7 = rep.rule("R04.7", "stream reader/writer methods: delegate to the positional accessor at self.position and advance the cursor by exactly its width on success only (label access: no movement)", floor=25)
+    zero_length_runs(facts, rep, R7, E)
     for cls in ("BinArchiveReader", "BinArchiveWriter"):
         prefix = "mila::bin_streams::%s::<'a>::" % cls
         for b in sorted(facts.views(), key=lambda b: b.name):
